@@ -2288,3 +2288,33 @@ def template_hygiene_rule(syn, prop, rule="C16.R13"):
                first[1], first[2])
     r.floor = 1
     return r
+
+
+def escape_coverage_rule(syn, prop, rule="C04.R10"):
+    """what may not appear raw between double quotes in TypeScript: the quote, the backslash, and a line break"""
+    r = Result(rule, "the routine that prepares text for a double-quoted TypeScript string (escape_string) replaces all four characters that cannot stand there as they are: `\\\\`, `\"`, LF and CR - and the backslash first, so that the escapes it introduces are not escaped again")
+    fn = syn.fn("utils::escape_string", "utils.rs") or syn.fn("escape_string", "utils.rs")
+    if fn is None:
+        r.fail(prop, "anchor-missing escape_string", "not found")
+        return r
+    reps = []
+    for e in sorted(S.events(fn, "mcall"), key=lambda x: (int(x["line"]), int(x["col"]))):
+        if S.squash(e["method"]) == "replace" and e.get("args"):
+            a0 = S.squash(e["args"][0])
+            m = re.match(r"^'(\\?.)'$|^\"(\\?.)\"$", a0)
+            ch = (m.group(1) or m.group(2)) if m else a0
+            reps.append({"\\\\": "\\", "\\\"": '"', "\\n": "\n", "\\r": "\r", "\\'": "'"}.get(ch, ch))
+    need = ["\\", '"', "\n", "\r"]
+    missing = [c for c in need if c not in reps]
+    # the receiver chain is evaluated left to right: the innermost (first) replace is the one listed last by position of `.replace`
+    order_ok = bool(reps) and (reps[0] == "\\" or reps[-1] == "\\")
+    first = None
+    txt = S.squash(json.dumps([{k: v for k, v in e.items() if k != "ctx"} for e in fn["events"]]))
+    mfirst = re.search(r"text\.replace\('(\\\\\\\\|[^'])'", txt)
+    r.inst(fn=fn["qual"], characters_replaced=[repr(c) for c in reps], missing=[repr(c) for c in missing])
+    if missing:
+        r.fail(prop, "escape-incomplete utils::escape_string %s" % ",".join(repr(c).strip("'") for c in missing),
+               "escape_string leaves %s as it is: `#[ts(rename = \"a\\nb\")]` (or a tag / variant name with a line break) puts a raw line break inside a double-quoted TypeScript string" % ", ".join(repr(c) for c in missing),
+               fn["file"], fn["line"])
+    r.floor = 1
+    return r
